@@ -49,6 +49,10 @@ type GenJob struct {
 	// Batch: non-empty = one call of Generator.GenerateDir over a directory with one sub-directory per item (each
 	// with its own spec and .goag.yaml) instead of GenerateFile; the result lists "<item>/<file>"
 	Batch []BatchItem `json:"batch,omitempty"`
+	// Surround: the run happens in hostile surroundings that are none of its inputs - a different .goag.yaml and
+	// another spec in the directory above the spec's, a sub-directory with a config of its own, another working
+	// directory, TZ / LANG / GOAG_* environment variables
+	Surround bool `json:"surround,omitempty"`
 	// FreshProcess (first job of a chain): the chain runs in a worker process that has not run anything before
 	FreshProcess bool `json:"freshProcess,omitempty"`
 }
@@ -131,12 +135,41 @@ func RunGen(job GenJob) (res GenResult) {
 	if specName == "" {
 		specName = "openapi.yaml"
 	}
-	specFile := filepath.Join(tmp, specName)
+	specDir := tmp
+	if job.Surround {
+		specDir = filepath.Join(tmp, "outer", "inner")
+		os.MkdirAll(filepath.Join(specDir, "sub"), 0o755)
+		decoyCfg := "cors:\n  enable: true\n"
+		decoySpec := "openapi: 3.0.0\ninfo: {title: decoy, version: \"9\"}\npaths:\n  /decoy:\n    get:\n      responses:\n        '200': {description: ok}\n"
+		os.WriteFile(filepath.Join(tmp, "outer", ".goag.yaml"), []byte(decoyCfg), 0o644)
+		os.WriteFile(filepath.Join(tmp, "outer", specName), []byte(decoySpec), 0o644)
+		os.WriteFile(filepath.Join(tmp, ".goag.yaml"), []byte(decoyCfg), 0o644)
+		os.WriteFile(filepath.Join(specDir, "sub", ".goag.yaml"), []byte(decoyCfg), 0o644)
+		os.WriteFile(filepath.Join(specDir, "sub", specName), []byte(decoySpec), 0o644)
+		if wd, err := os.Getwd(); err == nil {
+			if os.Chdir(filepath.Join(specDir, "sub")) == nil {
+				defer os.Chdir(wd)
+			}
+		}
+		for k, v := range map[string]string{"TZ": "Pacific/Kiritimati", "LANG": "tr_TR.UTF-8", "LC_ALL": "tr_TR.UTF-8", "GOAG_CONFIG": filepath.Join(tmp, "outer", ".goag.yaml"), "GOAG_CORS": "true", "HOME": filepath.Join(tmp, "outer")} {
+			old, had := os.LookupEnv(k)
+			os.Setenv(k, v)
+			k, old, had := k, old, had
+			defer func() {
+				if had {
+					os.Setenv(k, old)
+				} else {
+					os.Unsetenv(k)
+				}
+			}()
+		}
+	}
+	specFile := filepath.Join(specDir, specName)
 	if err := os.WriteFile(specFile, []byte(job.Spec), 0o644); err != nil {
 		res.Err = "HARNESS: " + err.Error()
 		return res
 	}
-	cfgFile := filepath.Join(tmp, ".goag.yaml")
+	cfgFile := filepath.Join(specDir, ".goag.yaml")
 	if job.Config != "" {
 		if err := os.WriteFile(cfgFile, []byte(job.Config), 0o644); err != nil {
 			res.Err = "HARNESS: " + err.Error()
